@@ -8,7 +8,7 @@ for d in $(ls -d $root/C* 2>/dev/null | sort); do
   cp /repo/*.go /repo/go.mod $t/ ; cp -r /repo/testdata $t/ 2>/dev/null
   if ! (cd $t && patch -p1 -s < $d/patch.diff >/dev/null 2>&1); then echo "$d: PATCH DOES NOT APPLY"; rm -rf $t; continue; fi
   prop=$(basename $d | cut -d- -f1)
-  out=$(/verif/bin/dverif list -bad -repo $t 2>&1 | grep -v "cell:Expm1(-zero)" | grep -v "obligations$")
+  out=$(/verif/bin/dverif list -bad -repo $t 2>&1 | grep -v "cell:Expm1(-zero)\|series.expm1.cancel" | grep -v "obligations$")
   n=$(echo -n "$out" | grep -c .)
   hit=$(echo "$out" | grep -c "$prop")
   echo "== $d: $n violations, $hit tagged $prop"
